@@ -62,15 +62,36 @@ def _equilibrated_cond(A):
     return float(np.linalg.cond(B))
 
 
-def _rel_err(x, xref, nf, nc):
+def _rel_err(x, xref, nf, nc, A=None, b=None):
     """Largest block-wise relative error of (flux | pressure | multiplier); each block is measured in
-    its own units, the multiplier (exactly zero for compatible data) against the pressure scale."""
+    its own units, the multiplier (exactly zero for compatible data) against the pressure scale.
+
+    A block of the reference that vanishes or nearly cancels is measured against the size of the terms
+    that cancel in it - for the flux u_f = (g_f + (D^T p)_f) / A_ff these are |g_f| / A_ff and
+    (|D^T| |p|)_f / A_ff - because that is what rounding in any correct solver is relative to (thorough
+    tier: two cells with equal sources, u = 0 exactly, computed 1e-15 next to a pressure of 8)."""
     x, xref = np.asarray(x, float), np.asarray(xref, float)
     if x.shape != xref.shape or not np.all(np.isfinite(x)):
         return np.inf
     out = 0.0
     su = np.abs(xref[:nf]).max() if nf else 0.0
     sp = np.abs(xref[nf:nf + nc]).max()
+    if nf and A is not None and b is not None:
+        A = np.asarray(A, float)
+        diag = np.abs(np.diag(A)[:nf])
+        terms = np.abs(np.asarray(b, float)[:nf]) + np.abs(A[:nf, nf:nf + nc]) @ np.abs(xref[nf:nf + nc])
+        with np.errstate(all="ignore"):
+            nat = np.where(diag > 0, terms / diag, 0.0)
+        if nat.size and np.all(np.isfinite(nat)):
+            su = max(su, float(nat.max()))
+        # ... and for the pressure differences (D^T p)_f = A_ff u_f - g_f the terms |A_ff u_f| and |g_f|,
+        # per unit of the coupling entries (face areas) of that row
+        coup = np.abs(A[:nf, nf:nf + nc]).max(axis=1)
+        terms_p = np.abs(np.asarray(b, float)[:nf]) + diag * np.abs(xref[:nf])
+        with np.errstate(all="ignore"):
+            natp = np.where(coup > 0, terms_p / coup, 0.0)
+        if natp.size and np.all(np.isfinite(natp)):
+            sp = max(sp, float(natp.max()))
     # a block that vanishes identically is measured against the size it would naturally have
     # (rounding noise of the other block carried over), never against zero
     floor = max(1e-10 * max(su, sp), np.finfo(float).tiny)
@@ -100,9 +121,23 @@ def _tags(case, **kw):
 
 
 def _solve(w1, A, b, reuse=False):
+    """One call of the library's linear_solve.  The system handed over is the caller's: the same matrix
+    and right-hand side objects are compared with the solution afterwards (and given to the next
+    formulation), so they must come back unchanged."""
+    M = sps.csc_matrix(A)
+    rhs = np.array(b, dtype=float)
     with warnings.catch_warnings():
         warnings.simplefilter("ignore")
-        x, _ = w1.linear_solve(sps.csc_matrix(A), b.copy(), None, reuse_solver=reuse)
+        x, _ = w1.linear_solve(M, rhs, None, reuse_solver=reuse)
+    if not np.array_equal(rhs, b):
+        k = int(np.argmax(np.abs(rhs - b)))
+        raise Violation(f"system-modified:rhs:{w1.formulation}", f"linear_solve ({w1.formulation}/"
+                        f"{w1.options.get('linear_solver')}) changed the right-hand side it was given: entry {k} "
+                        f"{b[k]!r} -> {rhs[k]!r}", {"formulation": str(w1.formulation)})
+    if M.shape != A.shape or not np.array_equal(M.toarray(), A):
+        raise Violation(f"system-modified:matrix:{w1.formulation}", f"linear_solve ({w1.formulation}/"
+                        f"{w1.options.get('linear_solver')}) changed the matrix it was given",
+                        {"formulation": str(w1.formulation)})
     return np.asarray(x, dtype=float)
 
 
@@ -149,12 +184,12 @@ def check_direct_all_forms(case):
         if res > 1e-9 * cond * float((np.abs(A) @ np.abs(x) + np.abs(b)).max()):
             raise Violation(f"residual:{form}:direct", f"|Ax-b| = {res:.3e} for formulation {form}",
                             _tags(case, formulation=form, solver="direct"))
-        err = _rel_err(x, xref, ref.num_faces, ref.num_cells)
+        err = _rel_err(x, xref, ref.num_faces, ref.num_cells, A, b)
         if err > 1e-11 * cond:
             raise Violation(f"dense-mismatch:{form}:direct", f"block-wise relative error {err:.3e} "
                             f"(equilibrated cond {cond:.2e})", _tags(case, formulation=form, solver="direct"))
     for a_, b_ in (("full", "flux_reduced"), ("full", "pressure"), ("flux_reduced", "pressure")):
-        d = _rel_err(sols[a_], sols[b_], ref.num_faces, ref.num_cells)
+        d = _rel_err(sols[a_], sols[b_], ref.num_faces, ref.num_cells, A, b)
         if d > 2e-11 * cond:
             raise Violation(f"disagree:{a_}:{b_}", f"block-wise relative difference {d:.3e}", _tags(case))
     return Outcome(_nt(case), [case["shape"], case["vox"], case["pseed"]],
@@ -194,7 +229,7 @@ def check_documented_usable(case):
                         f"{type(e).__name__}: {e}", t)
     xref = np.linalg.solve(A, b)
     tol = 1e-9 if solver == "direct" else 1e-6
-    if _rel_err(x, xref, ref.num_faces, ref.num_cells) > tol * _equilibrated_cond(A):
+    if _rel_err(x, xref, ref.num_faces, ref.num_cells, A, b) > tol * _equilibrated_cond(A):
         raise Violation(f"dense-mismatch:{sp}:{solver}", f"max|x-x_ref| = {np.abs(x - xref).max():.3e}", t)
     return Outcome(True, case, (sp, solver))
 
@@ -208,6 +243,9 @@ def gen_iterative(tier):
                 "solver": draw(st.sampled_from(["amg", "cg", "direct"])),
                 "wk": draw(st.sampled_from(["var", "var", "unit"])),
                 "default_tol": draw(st.booleans()),
+                # power-of-two size of the data: 1, tiny (mm-sized images in SI units), large
+                "rhs_exp": draw(st.sampled_from([0, 0, -30, -44, 24])),
+                "zero_flux_rhs": draw(st.booleans()),
                 "pseed": draw(st.integers(0, 2**20))}
     return strat()
 
@@ -224,23 +262,33 @@ def check_backends(case):
         tol = 1e-4  # default linear tolerances are 1e-6 relative
     g = darsia.Grid(shape=tuple(case["shape"]), voxel_size=list(case["vox"]))
     opts = {"formulation": form, "linear_solver": solver}
+    scale = 2.0 ** case.get("rhs_exp", 0)
+    if case["default_tol"] and solver == "amg" and scale != 1.0:
+        # the default tolerance of the AMG back-end is an absolute residual norm (1e-6): it is not meant
+        # for data of another magnitude, the user scales it along (tight branch below)
+        lso, tol = None, 1e-9
     if solver != "direct":
-        opts["linear_solver_options"] = lso if lso is not None else {"atol": 1e-13, "rtol": 1e-13, "maxiter": 600}
+        # absolute tolerances are given in the units of the data
+        opts["linear_solver_options"] = lso if lso is not None else {"atol": 1e-13 * scale, "rtol": 1e-13,
+                                                                     "maxiter": 600}
     with warnings.catch_warnings():
         warnings.simplefilter("ignore")
         w1 = darsia.WassersteinDistanceBregman(g, None, opts)
     pinned = int(w1.constrained_cell_flat_index)
-    A, b = _system(ref, pinned, _weights(rng, ref.num_faces, case["wk"]), rng)
+    A, b = _system(ref, pinned, _weights(rng, ref.num_faces, case["wk"]), rng,
+                   flux_rhs=not case.get("zero_flux_rhs", False))
+    b = b * scale
     xref = np.linalg.solve(A, b)
     cond = _equilibrated_cond(A)
     x = _solve(w1, A, b)
-    err = _rel_err(x, xref, ref.num_faces, ref.num_cells)
+    err = _rel_err(x, xref, ref.num_faces, ref.num_cells, A, b)
     if err > 10 * tol * cond:
         raise Violation(f"dense-mismatch:{form}:{solver}", f"block-wise relative error {err:.3e} (cond {cond:.2e}, "
                         f"{'default' if case['default_tol'] else 'tight'} tolerances)", t)
     return Outcome(_nt(case), [case["shape"], case["vox"], form, solver, case["pseed"]],
                    (f"dim{len(case['shape'])}", form, solver,
-                    "default-tol" if case["default_tol"] else "tight-tol"))
+                    "default-tol" if case["default_tol"] else "tight-tol",
+                    f"rhs-2^{case.get('rhs_exp', 0)}", "zero-flux-rhs" if case.get("zero_flux_rhs") else "full-rhs"))
 
 
 def gen_reuse(tier):
@@ -277,14 +325,14 @@ def check_reuse(case):
         x = _solve(w1, A, b, reuse=reuse)
         xref = np.linalg.solve(A, b)
         cond = _equilibrated_cond(A)
-        err = _rel_err(x, xref, ref.num_faces, ref.num_cells)
+        err = _rel_err(x, xref, ref.num_faces, ref.num_cells, A, b)
         if err > 10 * tol * cond:
             raise Violation(f"sequence:{'reuse' if reuse else 'fresh'}:{form}:{solver}",
                             f"system {k} of the sequence: max|x-x_ref| = {err:.3e}", t)
-        kept.append((x, xref, cond))
+        kept.append((x, xref, cond, A, b))
     # solutions handed out earlier stay what they were (no buffer shared between calls)
-    for k, (x, xref, cond) in enumerate(kept):
-        if _rel_err(x, xref, ref.num_faces, ref.num_cells) > 10 * tol * cond:
+    for k, (x, xref, cond, A, b) in enumerate(kept):
+        if _rel_err(x, xref, ref.num_faces, ref.num_cells, A, b) > 10 * tol * cond:
             raise Violation(f"sequence:overwritten:{form}:{solver}", f"the solution returned for system {k} was "
                             f"changed by a later solve on the same object", t)
     return Outcome(True, [case["shape"], case["vox"], form, solver, case["same_matrix"], case["pseed"]],
@@ -333,7 +381,7 @@ def check_shared_options(case):
                             f"dictionary: {before} -> {opts}", t)
         xref = np.linalg.solve(A, b)
         tol = 1e-9 if solver == "direct" else (1e-7 if case["explicit"] else 1e-4)
-        err = _rel_err(x, xref, ref.num_faces, ref.num_cells)
+        err = _rel_err(x, xref, ref.num_faces, ref.num_cells, A, b)
         if err > 10 * tol * _equilibrated_cond(A):
             raise Violation(f"dense-mismatch:{case['form']}:{solver}", f"right-hand side of magnitude 2^{case['rhs_exp']}: "
                             f"block-wise relative error {err:.3e}", t)
